@@ -515,8 +515,8 @@ func r47SchemaCopied(c *core.Ctx) {
 	for _, e := range execs {
 		if o := core.ObjOf(info, e.Args[0]); o != nil {
 			if def := singleDef(info, bt.Decl.Body, o); def != nil {
-				if call, ok := def.(*ast.CallExpr); ok && core.IsCallTo(info, call, "gpkg.Table.createSQL") {
-					if sel, ok := call.Fun.(*ast.SelectorExpr); ok && core.ObjOf(info, sel.X) == tParam {
+				if call, ok := def.(*ast.CallExpr); ok && isCallToAnchor(c, info, call, "gpkg.Table.createSQL") {
+					if subj := subjectOf(info, call); subj != nil && core.ObjOf(info, subj) == tParam {
 						okCreate = true
 					}
 				}
